@@ -154,9 +154,16 @@ def _run(pos: str, route_i: int, bad_i: int, n: int, i: int, ki: int, friendly: 
                         for k in keys[:-1]:
                             lst_owner = getattr(lst_owner, k)
                         setattr(lst_owner, keys[-1], good)
-                        target = getattr(lst_owner, keys[-1])[i]
                         if route == "dotted":
-                            skip("no dotted syntax for list items")
+                            # no dotted syntax for list items: this route replaces / inserts BY POSITION
+                            if pos not in ("items", "titems", "pitems", "s.items2"):
+                                skip("positional replacement explored for the item positions")
+                            stored = getattr(lst_owner, keys[-1])
+                            if ki == 0:
+                                stored[i] = {"v": bad}
+                            else:
+                                stored.insert(i, {"v": bad})
+                        target = getattr(lst_owner, keys[-1])[i]
                         if pos == "items.inner":
                             target.inner.p = bad
                         elif pos == "items.hops":
@@ -221,8 +228,8 @@ def _make(pos: str):
         """
         if not is_list and (n != 1 or i != 0):
             skip("n/i unused")
-        if not is_dict and ki != 0:
-            skip("key unused")
+        if not is_dict and ki != 0 and not (is_list and route_i == 1):
+            skip("key unused (list positions, positional route: 0 = replace, 1 = insert)")
         if (is_list or is_dict) and friendly:
             skip("friendly unused")
         if dup and not (is_list and n > 1):
@@ -236,8 +243,8 @@ for _p in POSITIONS:
     _make(_p)
 
 
-WRONG = (5, "x", [1], None, True, 1.5, (), (1, 2), {3})
-SHAPE_POS = ("s", "s.t", "ct", "items", "items_item", "d")
+WRONG = (5, "x", [1], None, True, 1.5, (), (1, 2), {3}, "12", {"7": 1})
+SHAPE_POS = ("s", "s.t", "ct", "items", "items_item", "d", "lst")
 
 
 @obligation(prop="C15", sites=("rejected", "type", "path"), stubs=("MemFormat",),
@@ -245,12 +252,13 @@ SHAPE_POS = ("s", "s.t", "ct", "items", "items_item", "d")
                      "cincoconfig.core.Config._process_includes"],
             budget={"quick": 120, "thorough": 300},
             examples=({"pos_i": 0, "route_i": 0, "bad_i": 0}, {"pos_i": 0, "route_i": 4, "bad_i": 5}),
-            what="wrongly shaped values (int, str, list, None, bool, float, empty tuple, pair, set) given to a sub-configuration, a config "
-                 "type, a list of configurations (whole value and single item) or a typed dict via "
+            what="wrongly shaped values (int, str, list, None, bool, float, empty tuple, pair, set, digit string, map) given to a "
+                 "sub-configuration, a config type, a list of configurations (whole value and single item), a typed list of "
+                 "integers or a typed dict via "
                  "attribute/constructor/load_tree/loads: ValidationError naming that field, never another type")
 def reject_wrong_shape(pos_i: int, route_i: int, bad_i: int) -> bool:
     """
-    pre: 0 <= pos_i < 6 and 0 <= route_i < 5 and 0 <= bad_i < 9
+    pre: 0 <= pos_i < 7 and 0 <= route_i < 5 and 0 <= bad_i < 11
     post: _
     """
     pos = _pick(SHAPE_POS, pos_i)
@@ -260,14 +268,16 @@ def reject_wrong_shape(pos_i: int, route_i: int, bad_i: int) -> bool:
         skip("same code path as attr for one-segment keys")
     schema, Item = _build(False, pos)
     mem = MemStore()
+    if isinstance(bad, dict) and pos not in ("items", "lst"):
+        skip("a map is the right shape here (unknown keys are the library's AttributeError, not a field rejection)")
     if pos == "items_item":
         if bad is None or isinstance(bad, (list, tuple, set)):
             skip("None / containers are not single wrong items of interest")
         want, keys, leaf = ("items", "items[1]"), ["items"], [{"v": 1}, bad]
-    elif pos == "items":
+    elif pos in ("items", "lst"):
         if isinstance(bad, (list, tuple)) or bad is None:
             skip("lists, tuples and None are acceptable list values")
-        want, keys, leaf = ("items",), ["items"], bad
+        want, keys, leaf = (pos,), [pos], bad     # a string or a map must not be iterated into items
     elif pos == "d":
         if bad is None or bad == ():
             skip("None and an empty sequence of pairs are acceptable")
@@ -442,3 +452,54 @@ def reject_path_config_objects(route: int, i: int, n: int, typed: bool, by_valid
 def _reject_low_port(cfg):
     if cfg.port is not None and cfg.port < 1024:
         raise ValueError("privileged port")
+
+
+# --------------------------------------------------------------------------- include fields (document route)
+INC_BAD = (5, [1], True, {"a": 1}, "missing.mem", "adir", 1.5)
+
+
+@obligation(prop="C15", sites=("rejected", "type", "path"), stubs=("FakeFS", "MemFormat"),
+            encodes=["cincoconfig.core.Config.loads", "cincoconfig.core.Config._process_includes",
+                     "cincoconfig.fields.include_field.IncludeField.include"],
+            budget={"quick": 120, "thorough": 300},
+            examples=({"nested": False, "route": 1, "bad_i": 0}, {"nested": True, "route": 1, "bad_i": 4}),
+            what="a rejected value for an INCLUDE field (wrong type, missing file, directory) at the root or in a "
+                 "nested schema, by tree load, document load or assignment: ValidationError naming the field "
+                 "(the document route resolves includes before load_tree and has its own rejection site)")
+def reject_include_value(nested: bool, route: int, bad_i: int) -> bool:
+    """
+    pre: 0 <= route <= 2 and 0 <= bad_i < 7
+    post: _
+    """
+    from cincoconfig import IncludeField
+    from vf.hlib.stubs import FakeFS
+    bad = _pick(INC_BAD, bad_i)
+    schema = Schema()
+    schema.inc = IncludeField(startdir="/cfg")
+    schema.x = IntField(default=1)
+    schema.s.inc2 = IncludeField(startdir="/cfg")
+    schema.s.y = IntField(default=2)
+    mem = MemStore()
+    fs = FakeFS(files={"/cfg/ok.mem": mem.put({"x": 5})}, dirs=["/cfg", "/cfg/adir"])
+    want = "s.inc2" if nested else "inc"
+    tree = {"s": {"inc2": bad}} if nested else {"inc": bad}
+    exc = None
+    with fs.patched(), mem.registered():
+        cfg = schema()
+        try:
+            if route == 0:
+                cfg.load_tree(tree)
+            elif route == 1:
+                cfg.loads(mem.put(tree), format="mem")
+            elif nested:
+                cfg.s.inc2 = bad
+            else:
+                cfg.inc = bad
+        except Exception as e:  # noqa: BLE001
+            exc = e
+    hold("rejected", exc is not None, "unusable include value %r accepted" % (bad,))
+    hold("type", isinstance(exc, ValidationError),
+         lambda: "rejection of include value %r surfaced as %s (%s), not ValidationError" % (bad, type(exc).__name__, exc))
+    hold("path", exc.ref_path == want and str(exc).startswith(want),
+         lambda: "ref_path %r / text %r do not name %r" % (exc.ref_path, str(exc), want))
+    return True
